@@ -1,8 +1,8 @@
-//! C09 on-demand reproducer (NOT run by ./check): the frame length field of
-//! SerializedRequest::make is `(data.len() - 9) as u32`, so a body of 4 GiB or more gets a length
-//! field that is the body size modulo 2^32 (Coq: C09_len32_wraps).  Builds a BATCH of five
-//! unprepared statements sharing one 1 GiB text (each below the 2^31 [long string] limit),
-//! needs ~14 GiB of memory for a few seconds.
+//! C09 on-demand reproducer (NOT run by ./check) of the fixed finding F19 frame-len32-wrap:
+//! before /repo a9f519c SerializedRequest::make wrote `(data.len() - 9) as u32`, so a body of 4 GiB
+//! or more got a length field equal to the body size modulo 2^32 (this program then printed
+//! REPRODUCED); since the fix it prints `refused: Request body is too long ...`.  Builds a BATCH of
+//! five unprepared statements sharing one 1 GiB text; needs ~7 GiB of memory for a few seconds.
 //!   cargo run --offline --bin c09_len32
 use scylla_cql::Consistency;
 use scylla_cql::frame::SerializedRequest;
